@@ -126,6 +126,11 @@ pub fn classify_lookup(level: &str, cfg: &Cfg, pre: &State, k: Key, now: i64, go
         return ("C06".into(), sig("C06", level, cfg, "expired-entry-not-purged", &disc), format!("k{} expired and looked up but still in the store", k));
     }
     if have != want {
+        // the purge of an expired entry took entries younger than ttl with it (C06: "an entry
+        // younger than T is still served unless it was evicted or invalidated")
+        if e.is_some() && got.is_none() && have.is_subset(&want) {
+            return ("C06".into(), sig("C06", level, cfg, "expired-purge-removed-live-entries", &disc), format!("lookup of the expired k{} left {:?} in the store, expected {:?}", k, have, want));
+        }
         return ("C04".into(), sig("C04", level, cfg, "lookup-changed-other-entries", &disc), format!("store after lookup {:?}, expected {:?}", have, want));
     }
     for (kk, (v, _)) in post {
